@@ -361,6 +361,17 @@ func fileReadAux(L *LState, file *lFile, idx int) int {
 				switch opt {
 				case 'n':
 					var v LNumber
+					// like fscanf("%lf") skip all leading white space: fmt.Fscanf does not read past a newline
+					for {
+						c, rerr := file.reader.ReadByte()
+						if rerr != nil {
+							break
+						}
+						if c != ' ' && (c < '\t' || c > '\r') {
+							file.reader.UnreadByte()
+							break
+						}
+					}
 					_, err = fmt.Fscanf(file.reader, LNumberScanFormat, &v)
 					if err == io.EOF {
 						L.Push(LNil)
